@@ -1389,6 +1389,21 @@ fire("c09-scale-of-all-leaf-plates-on-requeue", "C09", SUMPROD,
 fire("c09-sum-product-folds-from-first-factor", "C09", SUMPROD,
      "    return reduce(prod_op, factors, Number(UNITS[prod_op]))\n", "    return reduce(prod_op, factors)\n", "R09.5", "sum_product")
 
+# ---- C10 (claimed since round 8)
+fire("c10-scan-odd-tail-in-front", "C10", SUMPROD, "            contracted = Cat(time, (contracted, extra))\n", "            contracted = Cat(time, (extra, contracted))\n", "R10.1", "sequential_sum_product")
+fire("c10-scan-pairs-shifted-by-one", "C10", SUMPROD,
+     "        y = trans(**{time: Slice(time, 1, even_duration, 2, duration)}, **prev_to_drop)\n", "        y = trans(**{time: Slice(time, 2, even_duration, 2, duration)}, **prev_to_drop)\n", "R10.1", "sequential_sum_product")
+fire("c10-scan-roles-of-the-pieces-swapped", "C10", SUMPROD,
+     "        x = trans(**{time: Slice(time, 0, even_duration, 2, duration)}, **curr_to_drop)\n        y = trans(**{time: Slice(time, 1, even_duration, 2, duration)}, **prev_to_drop)\n",
+     "        x = trans(**{time: Slice(time, 0, even_duration, 2, duration)}, **prev_to_drop)\n        y = trans(**{time: Slice(time, 1, even_duration, 2, duration)}, **curr_to_drop)\n", "R10.1", "sequential_sum_product")
+fire("c10-scan-next-duration-floors", "C10", SUMPROD, "        duration = (duration + 1) // 2\n    return trans(**{time: 0})", "        duration = duration // 2\n    return trans(**{time: 0})", "R10.1", "sequential_sum_product")
+silent("c10-s-scan-even-duration-by-subtraction", "C10", SUMPROD, "        even_duration = duration // 2 * 2\n", "        even_duration = duration - duration % 2\n")
+fire("c10-segments-overlap-by-one", "C10", SUMPROD,
+     "                    time, i * segment_length, (i + 1) * segment_length, 1, duration\n", "                    time, i * segment_length, (i + 1) * segment_length + 1, 1, duration\n", "R10.2", "mixed_sequential_sum_product")
+fire("c10-remainder-variable-too-short", "C10", SUMPROD, "            Variable(time, Bint[1 + duration % num_segments]),\n", "            Variable(time, Bint[duration % num_segments]),\n", "R10.2", "mixed_sequential_sum_product")
+fire("c10-naive-fold-roles-swapped", "C10", SUMPROD,
+     "        y = factors.pop()(**prev_to_drop)\n        x = factors.pop()(**curr_to_drop)\n", "        y = factors.pop()(**curr_to_drop)\n        x = factors.pop()(**prev_to_drop)\n", "R10.3", "naive_sequential_sum_product")
+
 # ===== derived variants: must stay at the END of this file (they enumerate every rename() variant above) =====
 # `if c: A else: B` -> `if not c: B else: A` in the anchor functions (behaviour-preserving)
 def invert(prop, file, qual):
@@ -1411,7 +1426,7 @@ for _v in list(V):
         invert(_v["prop"], _v["transform"][1], _v["transform"][2])
 
 # every local of every top-level function / method of the whole package renamed at once
-for _p in ("C01", "C02", "C03", "C04", "C05", "C06", "C07", "C08", "C09", "C11", "C15", "C16", "C17", "C18", "C19", "C20"):
+for _p in ("C01", "C02", "C03", "C04", "C05", "C06", "C07", "C08", "C09", "C10", "C11", "C15", "C16", "C17", "C18", "C19", "C20"):
     V.append(dict(id=f"{_p.lower()}-s-rename-all-locals", prop=_p, kind="silent", transform=("rename_all_locals", "", "")))
     for _t in ("invert_all_ifs", "all_returns_via_temp", "all_else_after_return"):
         V.append(dict(id=f"{_p.lower()}-s-{_t.replace('_', '-')}", prop=_p, kind="silent", transform=(_t, "", "")))
